@@ -180,6 +180,30 @@ pub fn v_domain(thorough: bool) -> Vec<RV> {
     v
 }
 
+fn siblings(n: usize) -> Vec<RV> {
+    let kinds = vec![
+        RV::Vector(vec![]),
+        RV::Null,
+        RV::Vector(vec![RV::sym("a")]),
+        RV::list(vec![RV::sym("a")]),
+        RV::cons(RV::sym("a"), RV::sym("b")),
+        RV::Bytes(vec![]),
+        RV::Bytes(vec![1, 2]),
+        RV::str(""),
+        RV::str("a\\\"b"),
+        RV::list(vec![RV::sym("quote"), RV::sym("x")]),
+        RV::Vector(vec![RV::Vector(vec![])]),
+        RV::list(vec![RV::Null, RV::Vector(vec![])]),
+        RV::sym("+.a"),
+        RV::kw("k"),
+        RV::Char('('),
+        RV::Float(1e21),
+        RV::Nil,
+        RV::Bool(true),
+    ];
+    (0..n).map(|i| kinds[i % kinds.len()].clone()).collect()
+}
+
 fn long_values() -> Vec<RV> {
     let n = 10_000usize;
     let atoms = a12();
@@ -191,6 +215,14 @@ fn long_values() -> Vec<RV> {
         RV::Str("a\"λ\\\n€😀".repeat(n / 8)),
         RV::Bytes((0..n).map(|i| (i * 7) as u8).collect()),
         RV::sym(&"ab-".repeat(n / 3)),
+        // many small compound siblings of every kind: anything the parser keeps per construct
+        // (nesting budget, scratch space) must be given back between siblings (seed C01-c)
+        RV::list(siblings(n)),
+        RV::Vector(siblings(n)),
+        RV::append(siblings(300), RV::Vector(vec![])),
+        RV::list((0..300).map(|_| RV::Vector(vec![])).collect()),
+        RV::Vector((0..300).map(|_| RV::Null).collect()),
+        RV::list((0..300).map(|i| RV::list(vec![RV::Vector(vec![RV::Bytes(vec![]), RV::list(vec![RV::Int(i)])])])).collect()),
     ]
 }
 
@@ -218,10 +250,16 @@ pub fn replay(sub: &str, case: &J, acc: &mut Acc) {
     }
     if let Some(s) = case["symbol"].as_str() {
         check_value(acc, sub, 0, &RV::sym(s), true, &none);
+        for pv in crate::domains::in_positions(&RV::sym(s)) {
+            check_value(acc, sub, 0, &pv, false, &none);
+        }
         return;
     }
     if let Some(s) = case["keyword"].as_str() {
         check_value(acc, sub, 0, &RV::kw(s), true, &none);
+        for pv in crate::domains::in_positions(&RV::kw(s)) {
+            check_value(acc, sub, 0, &pv, false, &none);
+        }
         return;
     }
     if let Some(b) = case["byte"].as_u64() {
@@ -345,7 +383,7 @@ pub fn run(ctx: &Ctx) -> Report {
     if !NOFAST && ctx.want("names") {
         let (syms, kws) = names_default();
         let total = syms.len() + kws.len();
-        let sub = Sub::new("names", "NAMES(default): every identifier of length <= 3 over R7RS initials and subsequents (incl. a non-ASCII letter) plus the peculiar identifiers, filtered by 'plain in the default dialect', as symbol and as keyword; all entry points", &format!("{} symbols + {} keywords", syms.len(), kws.len()));
+        let sub = Sub::new("names", "NAMES(default): every identifier of length <= 3 over R7RS initials and subsequents (incl. a non-ASCII letter) plus the peculiar identifiers, filtered by 'plain in the default dialect', as symbol and as keyword, alone (all entry points) and in every syntactic position (alone in a list, head, last, dotted tail, vector element)", &format!("{} symbols + {} keywords", syms.len(), kws.len()));
         let accs = par_ranks(total as u64, |rank, acc| {
             let i = rank as usize;
             acc.nontrivial += 1;
@@ -354,6 +392,12 @@ pub fn run(ctx: &Ctx) -> Report {
             acc.sample(rank, || m.to_string());
             let c = || case.clone();
             check_value(acc, "names", rank, &m, true, &c);
+            // and in every syntactic position (names of length <= 2 and the peculiar ones)
+            if m.to_string().chars().count() <= 6 || i % 7 == 0 {
+                for pv in crate::domains::in_positions(&m) {
+                    check_value(acc, "names", rank, &pv, false, &c);
+                }
+            }
         });
         rep.absorb(sub, accs);
     }
@@ -377,7 +421,7 @@ pub fn run(ctx: &Ctx) -> Report {
     }
     if !NOFAST && ctx.want("long") {
         let dom = long_values();
-        let sub = Sub::new("long", "one proper list, dotted list, vector, string, byte vector and symbol of 10^4 elements; all entry points", "6 values");
+        let sub = Sub::new("long", "one proper list, dotted list, vector, string, byte vector and symbol of 10^4 elements; lists and vectors of 10^4 / 300 small compound siblings of every kind (empty and one-element vectors and lists, pairs, byte vectors, strings, quote forms, nested empties); all entry points", "12 values");
         let accs = par_ranks(dom.len() as u64, |rank, acc| {
             let m = &dom[rank as usize];
             acc.nontrivial += 1;
